@@ -156,6 +156,22 @@ def run(rep, tier, rng):
             nfail += 1
             if nfail == 1:
                 rep.violation({"kind": "oracle", "what": msg, "case_kind": "read", "case": c, "requested": S, "file_type": T})
+    # ---- the path-based one-liners: `read_shapes` (generic) and `read_shapes_as::<T>` of files on disk whose index
+    # lists the records in another order than they are stored: both follow the index, so they agree
+    import C14
+    import pathio
+    for mi in range(6 if tier != "thorough" else 26):
+        code = shapes.ALL_CODES[(3 * mi + 2) % 13]
+        m = F.gen_model(rng, code, nrecs=3, null_prob=0.0, allow_degenerate=False)
+        m.pop("trailing", None)
+        shp, entries = C14.build_layout(rng, m, (2, 0, 1), [0, 1, 0, 2], lambda k: bytes(k))
+        shx = refesri.encode_shx(m, entries=entries)
+        msg = pathio.check(rep, dev, "c06", "perm%d" % mi, shp, shx, code, "file on disk with a permuted index")
+        if msg:
+            nfail += 1
+            if nfail == 1:
+                rep.violation({"kind": "oracle", "what": msg, "case_kind": "path", "type": code})
+    pathio.cleanup("c06")
     # ---- typed random access and bulk reads
     bimpl = stages.correspondence(rep, "read_bulk", dev, bcases, "read(read_nth_shape_as / read_as / read, typed x actual)")
     for (T, S, items, codes, wi, ops2, htype), r, c in zip(bmeta, bimpl, bcases):
